@@ -1,4 +1,7 @@
+CONSTANTS
+  ClearScratch = TRUE
+  AdjointInUpdate = TRUE
 INIT Init
 NEXT Next
-INVARIANTS WeightsInv AppInv SameInv UpdateInv FormulaInv
+INVARIANTS WeightsInv AppInv SameInv UpdateInv ScratchInv BlockUpdateInv FormulaInv
 CHECK_DEADLOCK FALSE
